@@ -303,6 +303,31 @@ def triage(ctx: Ctx, w: Write, kind: str, why: str, schema: Schema):
         sites = _call_sites(p, "_apply_args")
         ok = all(q.endswith(".__init__") for _, q, _, _, _ in sites) and bool(sites)
         return ok, "called only from __init__ (construction)" if ok else f"_apply_args is called outside construction: {[q for _, q, _, _, _ in sites]}"
+    # 8a. a container that lives on the CLASS (mutable display in the class body, never re-bound per instance in
+    #     __init__) and is changed in place through self: one object shared by every instance and thread
+    if ctx.ci is not None and kind == "self":
+        t_ = w.target
+        holder = None
+        if w.kind.startswith("call:") and isinstance(t_, ast.Attribute) and isinstance(t_.value, ast.Name) and t_.value.id == ctx.recv:
+            holder = t_.attr
+        elif w.kind in ("item", "del") and isinstance(t_, ast.Subscript) and isinstance(t_.value, ast.Attribute) and isinstance(t_.value.value, ast.Name) and t_.value.value.id == ctx.recv:
+            holder = t_.value.attr
+        if holder is not None:
+            shared_at = None
+            owned = False
+            for c in ctx.ci.mro:
+                if not isinstance(c, ClassInfo):
+                    continue
+                for st in c.node.body:
+                    tg = st.targets[0] if isinstance(st, ast.Assign) and len(st.targets) == 1 else (st.target if isinstance(st, ast.AnnAssign) and st.value is not None else None)
+                    if isinstance(tg, ast.Name) and tg.id == holder and isinstance(st.value, (ast.List, ast.Dict, ast.Set, ast.ListComp, ast.DictComp, ast.SetComp)) or (isinstance(tg, ast.Name) and tg.id == holder and isinstance(st.value, ast.Call) and text(st.value.func) in ("list", "dict", "set", "collections.deque", "deque", "defaultdict", "collections.defaultdict")):
+                        shared_at = shared_at or (c, st)
+                for nm_ in ("__init__", "__new__"):
+                    f_ = c.own_func(nm_)
+                    if f_ is not None and any(isinstance(x, (ast.Assign, ast.AnnAssign)) and any(isinstance(y, ast.Attribute) and y.attr == holder and isinstance(y.value, ast.Name) and y.value.id == "self" for y in ((x.targets if isinstance(x, ast.Assign) else [x.target]))) for x in ast.walk(f_)):
+                        owned = True
+            if shared_at is not None and not owned:
+                return False, f"{ctx.ci.name}.{holder} is a mutable container created once in the class body of {shared_at[0].name} and never re-bound per instance; {text(w.target)} changes it in place through self, so every {ctx.ci.name} in the process (and every thread) shares one {holder}: a parse that fails half-way, or two concurrent parses, corrupt the next one"
     # 8. per-use parser objects
     if ctx.ci is not None and kind == "self" and ctx.ci.module == "ofxtools.Parser" and any(isinstance(b, Ext) and ("ElementTree" in b.name or "TreeBuilder" in b.name or b.name.startswith("ET.")) for b in ctx.ci.mro):
         return True, f"state of the per-parse {ctx.ci.name} object (E-R4 checks that none is shared)"
